@@ -4,12 +4,20 @@ use futures::{stream::once, Stream, StreamExt};
 use hydration_context::{SharedContext, SsrSharedContext};
 use leptos::{
     nonce::use_nonce,
-    reactive::owner::{Owner, Sandboxed},
+    reactive::{
+        computed::ScopedFuture,
+        owner::{Owner, Sandboxed},
+    },
     IntoView,
 };
 use leptos_config::LeptosOptions;
 use leptos_meta::ServerMetaContextOutput;
-use std::{future::Future, pin::Pin, sync::Arc};
+use std::{
+    future::Future,
+    pin::Pin,
+    sync::Arc,
+    task::{Context, Poll},
+};
 
 pub type PinnedStream<T> = Pin<Box<dyn Stream<Item = T> + Send>>;
 pub type PinnedFuture<T> = Pin<Box<dyn Future<Output = T> + Send>>;
@@ -150,13 +158,53 @@ where
                 //
                 // we also don't actually start hydrating until after the whole stream is complete,
                 // so it's not useful to send those scripts down earlier.
-                stream_builder(app, chunks, is_islands_router_navigation)
+                //
+                // the stream builder's future may itself drive the HTML stream (async rendering),
+                // so it is polled under this request's owner as well
+                ScopedFuture::new(stream_builder(
+                    app,
+                    chunks,
+                    is_islands_router_navigation,
+                ))
             });
 
-            stream.await
+            // everything that renders while the response body is being streamed (the view a
+            // `Suspend` resolves to, nested `Suspense` boundaries, ...) must see this request's
+            // owner, not whichever owner the polling thread happened to set last
+            Box::pin(WithOwner {
+                owner: Some(owner),
+                inner: stream.await,
+            }) as PinnedStream<String>
         }
     }));
     (owner, stream)
+}
+
+/// A [`Stream`] that sets the request's root [`Owner`] as the current owner every time the inner
+/// stream is polled, and releases it once the inner stream is finished.
+struct WithOwner {
+    owner: Option<Owner>,
+    inner: PinnedStream<String>,
+}
+
+impl Stream for WithOwner {
+    type Item = String;
+
+    fn poll_next(
+        self: Pin<&mut Self>,
+        cx: &mut Context<'_>,
+    ) -> Poll<Option<Self::Item>> {
+        let this = self.get_mut();
+        let next = match &this.owner {
+            Some(owner) => owner.with(|| this.inner.as_mut().poll_next(cx)),
+            None => this.inner.as_mut().poll_next(cx),
+        };
+        if matches!(next, Poll::Ready(None)) {
+            // do not keep the reactive system alive for longer than the stream
+            this.owner = None;
+        }
+        next
+    }
 }
 
 pub fn static_file_path(options: &LeptosOptions, path: &str) -> String {
